@@ -1,4 +1,5 @@
 import JominiModel.Proofs.Date
+import JominiModel.Proofs.DateFast
 import JominiModel.Generated.Tables
 /-
 C13 — Date codecs are mutually inverse and date arithmetic is consistent.
@@ -111,5 +112,29 @@ theorem C13_no_overflow_to_binary (y : Int) (m d h0 : Nat) (hy : inI16 y = true)
     inI32 ((y + 5000) * 365) = true ∧ inI32 ((y + 5000) * 365 + ordinal m d) = true ∧
     inI32 (((y + 5000) * 365 + ordinal m d) * 24) = true ∧ inI32 (binOf y m d h0) = true :=
   binOf_fits y h0 hy hv hh
+
+/-! ### digit-packed fast paths -/
+
+/-- **`util::fast_digit_parse`** on the little-endian word of eight bytes: `None` unless all
+eight are ASCII digits, otherwise exactly their decimal value (first byte most significant).
+(SWAR lemmas by `bv_decide` in `Proofs/SwarDate.lean`.) -/
+theorem C13_fast_digit_parse (b0 b1 b2 b3 b4 b5 b6 b7 : UInt8) :
+    fastDigitParse (leU64 [b0, b1, b2, b3, b4, b5, b6, b7]) =
+      if (isDigit b0 && isDigit b1 && isDigit b2 && isDigit b3 && isDigit b4 && isDigit b5 && isDigit b6 && isDigit b7) = true
+      then some (BitVec.ofNat 64 (decVal [b0, b1, b2, b3, b4, b5, b6, b7])) else none :=
+  fastDigitParse_bytes b0 b1 b2 b3 b4 b5 b6 b7
+
+example : fastDigitParse (leU64 [49, 52, 52, 52, 49, 49, 49, 49]) = some 14441111#64 := by decide
+
+/-- **the digit-packed fast paths agree with component-wise parsing**, for *all* byte strings:
+`Date::parse` is the component-wise `fallback` behind a front test that only looks at the
+length, the dot positions and the first byte (`earlyReject`, Spec/Date.lean).  The three slice
+patterns, the 8-byte mask trick for `YYYY.M.D` and `fast_digit_parse` never change a result. -/
+theorem C13_fastpaths_agree (s : Bytes) :
+    Date.parse s = if Date.earlyReject s = true then .err else Date.fallback s :=
+  Date.parse_eq s
+
+example : Date.earlyReject [49, 52, 52, 52, 46, 49, 49, 46, 49, 49] = false ∧
+    Date.parse [49, 52, 52, 52, 46, 49, 49, 46, 49, 49] = .ok (mkDate 1444 11 11) := by decide
 
 end Jomini.Props.C13
